@@ -387,14 +387,18 @@ def run_cases(ctx, cases, mode):
     return traces
 
 
-def judge(ctx, cases, traces, mode, base=0):
-    slim = [dict(id=base + i, cfg=t['cfg'], ev=t['ev']) for i, t in enumerate(traces)]
-    verdicts = ctx.validate('TraceServerCmd', 'TraceServerCmd.cfg', slim, nproc=8)
-    for i, t in enumerate(traces):
-        case = cases[t['case']]
+def judge(ctx, runs):
+    """runs: list of (cases, traces, mode); one batch validation for all of them"""
+    slim, meta = [], []
+    for cases, traces, mode in runs:
+        for t in traces:
+            slim.append(dict(id=len(slim), cfg=t['cfg'], ev=t['ev']))
+            meta.append((cases[t['case']], t, mode))
+    verdicts = ctx.validate('TraceServerCmd', 'TraceServerCmd.cfg', slim, nproc=8 if len(slim) > 20000 else 4)
+    for i, (case, t, mode) in enumerate(meta):
         if nontrivial(case['hist']):
             ctx.nontrivial([case['cfg'], case['hist']])
-        v = verdicts[base + i]
+        v = verdicts[i]
         if v is not None:
             at, why = v
             ev = t['ev'][at - 1]
@@ -402,10 +406,10 @@ def judge(ctx, cases, traces, mode, base=0):
                    for w in ev['em']]
             ctx.violation('cmd:%s:%s' % (ev['op'], why),
                           '%s on call %d (%s%s) of an API history [%s mode]: on the wire %s%s'
-                          % (why, at, ev['op'], ' inside bind()' if in_bind(t['ev'], at) else '', mode, obs,
-                             (' raised ' + ev['exc']) if ev['exc'] else ''),
+                          % (why, at, ev['op'], ' inside bind()' if in_bind(t['ev'], at) and ev['op'] != 'bind_exit' else '', mode,
+                             obs, (' raised ' + ev['exc']) if ev['exc'] else ''),
                           dict(kind='history', mode=mode, case=case, rejected_at=at, why=why, call=ev))
-    return len(traces)
+    return len(slim)
 
 
 def in_bind(ev, at):
@@ -461,12 +465,11 @@ def run(ctx):
     for _ in range(nrand):
         cases.append(dict(cfg=rnd.choice([CFG0, CFG1, CFGW, CFGT]), hist=random_history(rnd, rnd.randint(8, 40))))
     traces = run_cases(ctx, cases, 'nrt')
-    total = judge(ctx, cases, traces, 'nrt')
     # RT mode: same objects on the UDP interface (send captured, nothing leaves the process)
     step = 1 if thorough else 7
     rt_cases = cases[::step]
     rt_traces = run_cases(ctx, rt_cases, 'rt')
-    total += judge(ctx, rt_cases, rt_traces, 'rt', base=len(traces))
+    judge(ctx, [(cases, traces, 'nrt'), (rt_cases, rt_traces, 'rt')])
     ctx.cov['evaluations'] += sum(len(t['ev']) for t in traces) + sum(len(t['ev']) for t in rt_traces)
     ctx.cov['histories'] = dict(famcount, random=nrand, rt=len(rt_cases))
     ctx.cov['api_calls_judged'] = ctx.cov['evaluations']
@@ -499,7 +502,7 @@ def replay(ctx, rp):
     case = rep['case']
     mode = rep.get('mode', 'nrt')
     tr = run_cases(ctx, [case], mode)
-    judge(ctx, [case], tr, mode)
+    judge(ctx, [([case], tr, mode)])
     ctx.cov['evaluations'] = len(tr[0]['ev'])
     ctx.sample(dict(case=case, observed=tr[0]['ev'][:rep.get('rejected_at', 3)]))
 
